@@ -236,7 +236,8 @@ def finish(ctx, prop, gate, oracle_fail, disagree, samples, n_distinct, hist, kn
     if oracle_fail:
         violations = len(oracle_fail)
         path = C.write_replay(prop, {"kind": "oracle-failure", "property": prop, "first": oracle_fail[0],
-                                     "count": len(oracle_fail), "seed": ctx.seed})
+                                     "count": len(oracle_fail), "seed": ctx.seed,
+                                     "more": [f["failures"] for f in oracle_fail[1:12]]})
         print(f"VIOLATION property={prop} replay={path}")
         rc = 1
     elif gate["broken"] or disagree:
